@@ -15,8 +15,8 @@ from vt.oracles import rexmatch as O
 
 ID = 'C13'
 TIERS = {
-    'quick': dict(shards=16, cases=300, watchdog_s=900),
-    'thorough': dict(shards=16, cases=16000, watchdog_s=6000),
+    'quick': dict(shards=16, cases=1500, watchdog_s=900),
+    'thorough': dict(shards=16, cases=60000, watchdog_s=6000),
 }
 RULE = ('cases = C03 case space plus max_patterns/min_strings_per_pattern in {1,2,3}, empty and all-null '
         'inputs, inputs needing more than 99 coarse fragments; each case is extracted twice (tag off/on). '
